@@ -63,6 +63,18 @@ def filters(thorough):
                 o_age = T.binop("Eq", T.path("blog", "owner", "age"), T.NULL)
                 for a_, b_ in ((o_city, o_pers), (o_pers, o_city), (o_city, o_age), (o_age, o_city)):
                     fs += [("same-name&", T.binop("And", a_, b_)), ("same-name|", T.binop("Or", a_, b_)), ("same-name|!", T.binop("Or", T.unop("Not", a_), b_))]
+            # two lambdas over the SAME collection with the same quantifier and variable under and / or: each quantifies on its own
+            # (all(p) or all(q) is not all(p or q); any(p) and any(q) is not any(p and q))
+            for rel, (ct, _) in RL.SCHEMA[root]["many"].items():
+                bodies = RL.nonnull_body_atoms("x", ct)
+                for i in range(len(bodies)):
+                    for j in range(len(bodies)):
+                        if i == j or (i + j) % 3 == 2:
+                            continue
+                        for q in ("All", "Any"):
+                            la, lb = T.lam(T.I(rel), q, "x", bodies[i]), T.lam(T.I(rel), q, "x", bodies[j])
+                            fs.append(("same-coll:%s|%s" % (q, q), T.binop("Or", la, lb)))
+                            fs.append(("same-coll:%s&%s" % (q, q), T.binop("And", la, lb)))
             # three distinct relationships in one filter (and / or / not), strided
             for (ka, a), (kb, b), (kc, c) in list(zip(lams[::5], (paths[1::3] * 9)[:len(lams)], (paths[::4] * 9)[:len(lams)]))[:12]:
                 fs.append((ka + "&" + kb + "|" + kc, T.binop("Or", T.binop("And", a, b), c)))
@@ -278,6 +290,11 @@ ALT_FILTERS = {
         "node/extra eq null": lambda db, j: db["items"][j][1] is None or not db["extras"][db["items"][j][1]],
         "node/extra ne null": lambda db, j: db["items"][j][1] is not None and db["extras"][db["items"][j][1]],
         "node/items/any(j: j/name eq 'i2')": lambda db, j: db["items"][j][1] is not None and "i2" in _alt_children(db, db["items"][j][1]),
+        # the related row's PRIMARY key, while the foreign key holds another column of it (codes are not in id order)
+        "node/id eq 2": lambda db, j: db["items"][j][1] == 1,
+        "node/id ne 1": lambda db, j: db["items"][j][1] is not None and db["items"][j][1] != 0,
+        "node/id in (1, 3)": lambda db, j: db["items"][j][1] in (0, 2),
+        "node/id eq 2 or name eq 'i2'": lambda db, j: db["items"][j][1] == 1 or db["items"][j][0] == "i2",
         "node/extra/note eq 'e' or name eq 'i2'": lambda db, j: (db["items"][j][1] is not None and db["extras"][db["items"][j][1]]) or db["items"][j][0] == "i2",
     },
 }
